@@ -634,13 +634,15 @@ func (c *Client) SendAndRead(ctx context.Context, dest *net.UDPAddr, p *dhcpv4.D
 		c.logger.PrintMessage("sent message", p)
 		defer rem()
 
+		// One timer per try: a non-matching packet must not extend the deadline.
+		deadline := time.After(timeout)
 		for {
 			select {
 			case <-c.done:
 				vhook("Wake", "closed")
 				return ErrNoResponse
 
-			case <-time.After(timeout):
+			case <-deadline:
 				vhook("Wake", "timeout")
 				return errDeadlineExceeded
 
